@@ -17,6 +17,7 @@ import (
 	"bytes"
 	"fmt"
 	"sync"
+	"sync/atomic"
 	"time"
 
 	"verif/drv/pbt"
@@ -156,6 +157,7 @@ type rtspCons struct {
 	joinErr error
 	playing bool
 	frames  []rtspref.Frame
+	ansEnds int // world.endsSeen right after the DESCRIBE answer arrived
 }
 
 func (w *world) joinRtsp() *rtspCons {
@@ -165,6 +167,7 @@ func (w *world) joinRtsp() *rtspCons {
 		cl := rtspref.NewClient(rc.conn)
 		r, err := cl.Describe(rtspURI) // answered once the stream has a session description
 		rc.mu.Lock()
+		rc.ansEnds = int(atomic.LoadInt32(&w.endsSeen))
 		if r != nil {
 			rc.status, rc.sdp = r.Status, r.Body
 		}
@@ -259,14 +262,10 @@ func isNeutralNal(codec string, n []byte) bool {
 func (w *world) checkRtspConsumer(a *attached) *pbt.Violation {
 	rc := a.rs
 	rc.mu.Lock()
-	sdp, status, jerr, playing, frames := rc.sdp, rc.status, rc.joinErr, rc.playing, rc.frames
+	sdp, status, jerr, playing, frames, ansEnds := rc.sdp, rc.status, rc.joinErr, rc.playing, rc.frames, rc.ansEnds
 	rc.mu.Unlock()
-	k := a.minInc
-	in := w.c.Incs[k]
-	cd := in.Codecs
-	who := fmt.Sprintf("RTSP consumer %d (DESCRIBE issued in incarnation %d [%s input, %s] at %d)", a.idx, k, in.Input, shape(cd), a.spec.JoinAt)
 	if sdp == nil {
-		return nil // never answered: the incarnation produced no session description (short single-track stream) — not judged here
+		return nil // never answered: no incarnation it watched produced a session description — not judged here
 	}
 	if status != 200 {
 		return nil
@@ -274,49 +273,87 @@ func (w *world) checkRtspConsumer(a *attached) *pbt.Violation {
 	pbt.Count("rtsp_consumers_described", 1)
 	sess, err := sdpref.Parse(sdp)
 	if err != nil {
-		return pbt.V("rtsp/sdp-unparseable", "%s: %v\n%s", who, err, sdp)
+		return pbt.V("rtsp/sdp-unparseable", "RTSP consumer %d: %v\n%s", a.idx, err, sdp)
 	}
 	tracks, err := sess.Tracks()
 	if err != nil {
-		return pbt.V("rtsp/sdp-unparseable", "%s: %v\n%s", who, err, sdp)
+		return pbt.V("rtsp/sdp-unparseable", "RTSP consumer %d: %v\n%s", a.idx, err, sdp)
 	}
-	vps, sps, pps := gen.ParamSets(cd.Video, incVariant(in))
-	prevNote := ""
-	if k > 0 {
-		prevNote = fmt.Sprintf(" (the previous incarnation was %s over %s)", shape(w.c.Incs[k-1].Codecs), w.c.Incs[k-1].Input)
+	// multi: the consumer stayed attached across an input end into a later incarnation — a new RTP source per
+	// incarnation is then legitimate, and the codecs of its session description need not fit the successor
+	multi := int(atomic.LoadInt32(&w.endsSeen))-a.ends0 >= 2
+	// The DESCRIBE is answered by the incarnation that is live when the stream has a session description: the one it
+	// was issued in, or — the consumer stayed attached — a later one.  ansEnds was read right after the answer
+	// arrived, so the answering incarnation lies in [minInc, ansEnds].
+	hi := ansEnds
+	if hi >= len(w.c.Incs) {
+		hi = len(w.c.Incs) - 1
 	}
-	vch, ach := -1, -1
-	vcodec, acodec := "", ""
-	for ti, tr := range tracks {
-		switch tr.MediaType {
-		case "video":
-			vch = 2 * ti
-			switch tr.Encoding {
-			case "H264":
-				vcodec = "avc"
-			case "H265":
-				vcodec = "hevc"
-			}
-			if cd.Video == "" || vcodec != cd.Video {
-				return pbt.V("inherited/rtsp-sdp", "%s: the session description announces %s video, the incarnation publishes %q%s:\n%s", who, tr.Encoding, cd.Video, prevNote, sdp)
-			}
-			if len(tr.PPS) > 0 && !bytes.Equal(tr.PPS[len(tr.PPS)-1], pps) || len(tr.SPS) > 0 && !bytes.Equal(tr.SPS[len(tr.SPS)-1], sps) || (vcodec == "hevc" && len(tr.VPS) > 0 && !bytes.Equal(tr.VPS[len(tr.VPS)-1], vps)) {
-				return pbt.V("inherited/rtsp-sdp", "%s: the session description carries sps=%x pps=%x, the incarnation's parameter sets are sps=%x pps=%x%s", who, tr.SPS, tr.PPS, sps, pps, prevNote)
-			}
-		case "audio":
-			ach = 2 * ti
-			if tr.Encoding == "MPEG4-GENERIC" {
-				acodec = "aac"
-				if cd.Audio != "aac" {
-					return pbt.V("inherited/rtsp-sdp", "%s: the session description announces AAC audio, the incarnation publishes audio %q%s:\n%s", who, cd.Audio, prevNote, sdp)
-				}
-				if want := gen.Asc(cd.AscObj, cd.AscFreq, cd.AscChan); len(tr.Config) > 0 && !bytes.Equal(tr.Config, want) {
-					return pbt.V("inherited/rtsp-sdp", "%s: the session description carries AAC config %x, the incarnation's is %x%s", who, tr.Config, want, prevNote)
-				}
-			} else if cd.Audio == "" || cd.Audio == "aac" {
-				return pbt.V("inherited/rtsp-sdp", "%s: the session description announces %s audio, the incarnation publishes audio %q%s:\n%s", who, tr.Encoding, cd.Audio, prevNote, sdp)
-			}
+	var (
+		k              int
+		in             Inc
+		cd             gen.Codecs
+		who, prevNote  string
+		vps, sps, pps  []byte
+		vch, ach       int
+		vcodec, acodec string
+		dummyA         bool
+		sdpV           *pbt.Violation
+	)
+	for k = a.minInc; k <= hi; k++ {
+		in = w.c.Incs[k]
+		cd = in.Codecs
+		who = fmt.Sprintf("RTSP consumer %d (DESCRIBE issued in incarnation %d at %d, answered by incarnation %d [%s input, %s])", a.idx, a.minInc, a.spec.JoinAt, k, in.Input, shape(cd))
+		vps, sps, pps = gen.ParamSets(cd.Video, incVariant(in))
+		prevNote = ""
+		if k > 0 {
+			prevNote = fmt.Sprintf(" (the previous incarnation was %s over %s)", shape(w.c.Incs[k-1].Codecs), w.c.Incs[k-1].Input)
 		}
+		vch, ach, vcodec, acodec, dummyA = -1, -1, "", "", false
+		sdpV = func() *pbt.Violation {
+			for ti, tr := range tracks {
+				switch tr.MediaType {
+				case "video":
+					vch = 2 * ti
+					switch tr.Encoding {
+					case "H264":
+						vcodec = "avc"
+					case "H265":
+						vcodec = "hevc"
+					}
+					if cd.Video == "" || vcodec != cd.Video {
+						return pbt.V("inherited/rtsp-sdp", "%s: the session description announces %s video, the incarnation publishes %q%s:\n%s", who, tr.Encoding, cd.Video, prevNote, sdp)
+					}
+					if len(tr.PPS) > 0 && !bytes.Equal(tr.PPS[len(tr.PPS)-1], pps) || len(tr.SPS) > 0 && !bytes.Equal(tr.SPS[len(tr.SPS)-1], sps) || (vcodec == "hevc" && len(tr.VPS) > 0 && !bytes.Equal(tr.VPS[len(tr.VPS)-1], vps)) {
+						return pbt.V("inherited/rtsp-sdp", "%s: the session description carries sps=%x pps=%x, the incarnation's parameter sets are sps=%x pps=%x%s", who, tr.SPS, tr.PPS, sps, pps, prevNote)
+					}
+				case "audio":
+					ach = 2 * ti
+					if tr.Encoding == "MPEG4-GENERIC" {
+						acodec = "aac"
+						if w.c.DummyAudio && cd.Audio == "" {
+							dummyA = true // silent AAC track of the dummy-audio filter
+							continue
+						}
+						if cd.Audio != "aac" {
+							return pbt.V("inherited/rtsp-sdp", "%s: the session description announces AAC audio, the incarnation publishes audio %q%s:\n%s", who, cd.Audio, prevNote, sdp)
+						}
+						if want := gen.Asc(cd.AscObj, cd.AscFreq, cd.AscChan); len(tr.Config) > 0 && !bytes.Equal(tr.Config, want) {
+							return pbt.V("inherited/rtsp-sdp", "%s: the session description carries AAC config %x, the incarnation's is %x%s", who, tr.Config, want, prevNote)
+						}
+					} else if cd.Audio == "" || cd.Audio == "aac" {
+						return pbt.V("inherited/rtsp-sdp", "%s: the session description announces %s audio, the incarnation publishes audio %q%s:\n%s", who, tr.Encoding, cd.Audio, prevNote, sdp)
+					}
+				}
+			}
+			return nil
+		}()
+		if sdpV == nil {
+			break
+		}
+	}
+	if sdpV != nil {
+		return sdpV
 	}
 	if jerr != nil || !playing {
 		return nil // SETUP / PLAY did not complete before the connection went away (input ended meanwhile)
@@ -350,7 +387,7 @@ func (w *world) checkRtspConsumer(a *attached) *pbt.Violation {
 			ssrcs[pk.SSRC]++
 			pkts = append(pkts, pk)
 		}
-		if len(ssrcs) > 1 {
+		if len(ssrcs) > 1 && !multi {
 			desc := ""
 			for _, s := range order {
 				desc += fmt.Sprintf(" %#x (%d packets)", s, ssrcs[s])
@@ -360,56 +397,84 @@ func (w *world) checkRtspConsumer(a *attached) *pbt.Violation {
 		if codec == "" || len(pkts) == 0 {
 			continue
 		}
-		for x := 1; x < len(pkts); x++ {
-			if pkts[x].Seq != pkts[x-1].Seq+1 {
-				return pbt.V("rtsp/rtp-sequence-broken", "%s: channel %d (%s): packet %d has sequence number %d after %d (ts %d after %d)%s", who, ch, codec, x, pkts[x].Seq, pkts[x-1].Seq, pkts[x].TS, pkts[x-1].TS, prevNote)
-			}
-		}
-		d := rtpref.NewDepacketizer(rtpref.Codec(codec))
-		// the subscriber may have joined inside a fragmented unit: skip leading continuation fragments
-		var units []rtpref.Unit
-		started := false
-		for _, pk := range pkts {
-			us, err := d.Push(pk)
-			if err != nil {
-				if !started {
-					d = rtpref.NewDepacketizer(rtpref.Codec(codec))
-					continue
-				}
-				return pbt.V("rtsp/rtp-undecodable", "%s: channel %d (%s): packet seq %d: %v", who, ch, codec, pk.Seq, err)
-			}
-			started = true
-			units = append(units, us...)
+		if dummyA && ch == ach {
+			continue
 		}
 		seen := map[string]bool{}
-		for ui, u := range units {
-			key := string(u.Data)
-			if ref, ok := w.units[key]; ok {
-				if ref.inc != k {
-					return pbt.V("inherited/rtsp", "%s: channel %d: unit %d (%d bytes, rtp ts %d) is the %s — a unit of incarnation %d%s", who, ch, ui, len(u.Data), u.TS, ref.what, ref.inc, prevNote)
+		curInc := k
+		for si, ssrc := range order {
+			lenient := multi && si > 0 // packets of a successor the session description was not made for
+			var seg []*rtpref.Packet
+			for _, pk := range pkts {
+				if pk.SSRC == ssrc {
+					seg = append(seg, pk)
 				}
-				if seen[key] {
-					return pbt.V("duplicate/rtsp", "%s: channel %d: the %s was delivered twice (second time as unit %d, rtp ts %d, seq %d..%d)%s", who, ch, ref.what, ui, u.TS, u.FirstSeq, u.LastSeq, prevNote)
+			}
+			broken := false
+			for x := 1; x < len(seg); x++ {
+				if seg[x].Seq != seg[x-1].Seq+1 {
+					if lenient {
+						broken = true
+						break
+					}
+					return pbt.V("rtsp/rtp-sequence-broken", "%s: channel %d (%s): packet %d has sequence number %d after %d (ts %d after %d)%s", who, ch, codec, x, seg[x].Seq, seg[x-1].Seq, seg[x].TS, seg[x-1].TS, prevNote)
 				}
-				seen[key] = true
+			}
+			if broken {
 				continue
 			}
-			if ch == vch {
-				if ps, isPps := isParamSet(codec, u.Data); ps {
-					if isPps && !bytes.Equal(u.Data, pps) {
-						return pbt.V("inherited/rtsp-parameter-sets", "%s: channel %d: in-band PPS %x is not the incarnation's %x%s", who, ch, u.Data, pps, prevNote)
+			d := rtpref.NewDepacketizer(rtpref.Codec(codec))
+			// the subscriber may have joined inside a fragmented unit: skip leading continuation fragments
+			var units []rtpref.Unit
+			started := false
+			for _, pk := range seg {
+				us, err := d.Push(pk)
+				if err != nil {
+					if !started {
+						d = rtpref.NewDepacketizer(rtpref.Codec(codec))
+						continue
 					}
+					if lenient {
+						break
+					}
+					return pbt.V("rtsp/rtp-undecodable", "%s: channel %d (%s): packet seq %d: %v", who, ch, codec, pk.Seq, err)
+				}
+				started = true
+				units = append(units, us...)
+			}
+			for ui, u := range units {
+				key := string(u.Data)
+				if ref, ok := w.units[key]; ok {
+					if ref.inc < k || ref.inc < curInc || (!multi && ref.inc != k) {
+						return pbt.V("inherited/rtsp", "%s: channel %d: unit %d (%d bytes, rtp ts %d) is the %s — a unit of incarnation %d (after units of incarnation %d)%s", who, ch, ui, len(u.Data), u.TS, ref.what, ref.inc, curInc, prevNote)
+					}
+					curInc = ref.inc
+					if seen[key] {
+						return pbt.V("duplicate/rtsp", "%s: channel %d: the %s was delivered twice (second time as unit %d, rtp ts %d, seq %d..%d)%s", who, ch, ref.what, ui, u.TS, u.FirstSeq, u.LastSeq, prevNote)
+					}
+					seen[key] = true
 					continue
 				}
-				if isNeutralNal(codec, u.Data) {
+				if lenient {
 					continue
 				}
+				if ch == vch {
+					if ps, isPps := isParamSet(codec, u.Data); ps {
+						if isPps && !bytes.Equal(u.Data, pps) {
+							return pbt.V("inherited/rtsp-parameter-sets", "%s: channel %d: in-band PPS %x is not the incarnation's %x%s", who, ch, u.Data, pps, prevNote)
+						}
+						continue
+					}
+					if isNeutralNal(codec, u.Data) {
+						continue
+					}
+				}
+				hd := u.Data
+				if len(hd) > 16 {
+					hd = hd[:16]
+				}
+				return pbt.V("rtsp/unknown-unit", "%s: channel %d (%s): unit %d (%d bytes, % x.., rtp ts %d) is nothing the publisher sent%s", who, ch, codec, ui, len(u.Data), hd, u.TS, prevNote)
 			}
-			hd := u.Data
-			if len(hd) > 16 {
-				hd = hd[:16]
-			}
-			return pbt.V("rtsp/unknown-unit", "%s: channel %d (%s): unit %d (%d bytes, % x.., rtp ts %d) is nothing the publisher sent%s", who, ch, codec, ui, len(u.Data), hd, u.TS, prevNote)
 		}
 	}
 	return nil
